@@ -247,6 +247,11 @@ def freeze_eligible(model):
     cls = layer.__class__.__name__
     if cls not in FREEZE_CLASSES:
       return False
+    # an already frozen model is not frozen again (the utility reads
+    # q.scale.numpy(), which a post-training scale - an ndarray - lacks)
+    if any(getattr(q, "post_training_scale", None) is not None
+           for q in (getattr(layer, "quantizers", []) or [])):
+      return False
     qs = list(getattr(layer, "quantizers", []) or [])
     autos = [q for q in qs if getattr(q, "alpha", None) == "auto_po2"]
     if not autos:
@@ -308,7 +313,10 @@ def check_entry(layer, roles, entry, stored, scales_exp, labels):
     if name in ("quantized_po2", "quantized_relu_po2"):
       labels.add("rel:po2" if name == "quantized_po2" else "rel:relu_po2")
       if name == "quantized_po2":
-        if signs is None or len(signs) != len(roles) or np.size(
+        # signs is a list parallel to weights; the exporter appends nothing in
+        # its auto_po2 branch, so an auto_po2 quantizer *before* this weight
+        # shifts the list (signs[k] then belongs to another weight)
+        if signs is None or after_auto or k >= len(signs) or np.size(
             _np(signs[k])) != st.size:
           fails.append(("po2_relation", dict(sig, relation="signs_aligned",
                                              after_auto_po2=after_auto),
